@@ -154,7 +154,25 @@ def run(ctx):
                         else:
                             verdict = ('bad', 'sorted with a custom comparator (%s) that the rule cannot show to be total' % m)
             else:
-                verdict = ('bad', 'iteration result flows into %s' % (chain[-1] if chain else 'an unknown consumer'))
+                verdict = None
+                par = parents.get(id(cur))
+                hops = 0
+                while par is not None and par.get('k') in ('AddrOf', 'Block') and hops < 3:
+                    cur, par = par, parents.get(id(par))
+                    hops += 1
+                if par is not None and par.get('k') in ('Call', 'MethodCall') and par.get('callee'):
+                    g = norm_path(par['callee'])
+                    gh = F.hir.get(g) or F.hir.get(getattr(F, '_norm_hir', {}).get(g, ''))
+                    if gh is None:
+                        for kk in F.hir:
+                            if norm_path(kk) == g:
+                                gh = F.hir[kk]
+                                break
+                    why = sorted_by_helper(gh) if gh else None
+                    if why:
+                        verdict = ('ok', 'handed to %s, which %s' % (g.split('::')[-1], why))
+                if verdict is None:
+                    verdict = ('bad', 'iteration result flows into %s' % (chain[-1] if chain else 'an unknown consumer'))
             if verdict[0] == 'ok':
                 res.ok(key, {'fn': path, 'line': site.get('l'), 'chain': chain, 'why': verdict[1]})
             else:
@@ -163,6 +181,38 @@ def run(ctx):
     if n_sites == 0:
         res.note('no IdHash iteration in emit-reachable code')
     return res
+
+
+def sorted_by_helper(h):
+    """a helper that collects what it is given and sorts it with a total key before returning it"""
+    found = []
+
+    def walk(n):
+        if isinstance(n, dict):
+            if n.get('k') == 'MethodCall':
+                c = norm_path(n.get('callee') or '')
+                m = c.split('::')[-1]
+                if (c.startswith('std::slice::') or c.startswith('core::slice::') or c.startswith('alloc::slice::')) and m.startswith('sort'):
+                    found.append(n)
+            for v in n.values():
+                walk(v)
+        elif isinstance(n, list):
+            for v in n:
+                walk(v)
+    walk(h['body'])
+    if len(found) != 1:
+        return None
+    sn = found[0]
+    m = norm_path(sn.get('callee')).split('::')[-1]
+    if m in ('sort', 'sort_unstable'):
+        return 'sorts the collected elements'
+    if m in ('sort_by_key', 'sort_unstable_by_key', 'sort_by_cached_key'):
+        kt = key_of(sn['args'][0] if sn.get('args') else {})
+        if kt == 'whole':
+            return 'sorts by the whole element'
+        if kt and kt[0] == 'field0' and kt[1] in ('u32', 'usize', 'u64'):
+            return 'sorts by the leading index (.0: %s)' % kt[1]
+    return None
 
 
 def elem_ty(vec_ty):
@@ -194,6 +244,12 @@ def key_of(closure):
             q = q['p']
         if q.get('k') == 'Bind' and q.get('id') == body.get('id'):
             return 'whole'
-        # |&(a, _)| a : a component
+        # |&(a, _)| a : the leading component is the element's `.0`
+        if q.get('k') == 'Tuple' and q.get('pats'):
+            first = q['pats'][0]
+            while first.get('k') in ('Ref', 'Deref'):
+                first = first['p']
+            if first.get('k') == 'Bind' and first.get('id') == body.get('id'):
+                return ('field0', body.get('ty'))
         return ('component', body.get('ty'))
     return ('expr', body.get('k'))
